@@ -10,7 +10,7 @@
    the repair of finding C06-F1 (each present value overwrites the field, streams untouched); [OParamsP] is the
    repaired function (an absent limit is 0; a value below the one held is PROTOCOL_VIOLATION when 0-RTT was
    accepted; when 0-RTT was not accepted every existing stream is put back on the blocked lists until the handshake
-   completes).  The tie probes the source and feeds the one that the tree contains.
+   completes, its highest_offset and the connection's credit counter restart from 0).  The tie probes the source and feeds the one that the tree contains.
    No proofs in this file. *)
 From AQ Require Import lib.Base lib.Tok model.RangeSet model.StreamSend.
 
@@ -171,11 +171,15 @@ Definition max_offset (c : conn) (t : strm) : Z :=
 Definition with_limits (c : conn) (md bl br un sb su : Z) : conn :=
   mkConn (c_client c) md (c_used c) bl br un sb su (c_streams c) (c_blk_bidi c) (c_blk_uni c).
 
-(* repaired _parse_transport_parameters, not accepted: every stream held in _streams is marked blocked and the two
-   blocked lists are rebuilt from _streams in creation order *)
-Definition blocked_again (t : strm) : strm := mkStrm (t_id t) true (t_msdr t) (t_send t) (t_stop t).
+(* repaired _parse_transport_parameters, not accepted: what was sent under the remembered limits is forgotten --
+   every stream held in _streams is marked blocked and its sender's highest_offset set to 0, _remote_max_data_used
+   is set to 0 -- and the two blocked lists are rebuilt from _streams in creation order *)
+Definition forget (st : send) : send :=
+  mkSend (s_empty st) 0 (s_finished st) (s_reset_pending st) (s_acked st) (s_acked_fin st) (s_buf st)
+         (s_fin st) (s_start st) (s_stop st) (s_pending st) (s_pending_eof st) (s_reset st).
+Definition blocked_again (t : strm) : strm := mkStrm (t_id t) true (t_msdr t) (forget (t_send t)) (t_stop t).
 Definition reblock (c : conn) : conn :=
-  mkConn (c_client c) (c_max_data c) (c_used c) (c_msd_bl c) (c_msd_br c) (c_msd_uni c) (c_ms_bidi c) (c_ms_uni c)
+  mkConn (c_client c) (c_max_data c) 0 (c_msd_bl c) (c_msd_br c) (c_msd_uni c) (c_ms_bidi c) (c_ms_uni c)
          (map blocked_again (c_streams c))
          (map t_id (filter (fun t => negb (sid_uni (t_id t))) (c_streams c)))
          (map t_id (filter (fun t => sid_uni (t_id t)) (c_streams c))).
